@@ -64,6 +64,7 @@ def jobs(tier, seed):
     out.append(('make-exact-fp64', dict(kind='fp', a=0, b=0)))
     out.append(('cstep', dict(kind='cstep', a=0, b=0)))
     out.append(('default-scale-table', dict(kind='scale', a=0, b=0)))
+    out.append(('integer-typed-witness', dict(kind='intwitness', a=0, b=0)))
     return out
 
 
@@ -79,8 +80,36 @@ def run_job(job, kind, a, b):
         fp(job)
     elif kind == 'cstep':
         cstep(job, mods['lim'])
+    elif kind == 'intwitness':
+        bad = int_witness_failures(mods['sg'], mods['lim'])
+        if not job.confirm('integer-typed x / options give the same steps as the same values as floats (concrete runs)', not bad):
+            job.violation('int', dict(key='C10:integer-typed-arguments', kind='intwitness', detail=bad[0]))
     else:
         scale_table(job, mods['sg'])
+
+
+def int_witness_failures(sg, lim):
+    """CONCRETE witness runs (not solver evidence): integer-typed x and integer-typed options must give the steps the same
+    values give as floats (the symbolic runs carry no numpy dtype)"""
+    bad = []
+    gens = [('MinStepGenerator', sg.MinStepGenerator), ('MaxStepGenerator', sg.MaxStepGenerator), ('CStepGenerator', lim.CStepGenerator)]
+    optsets = [dict(), dict(step_nom=2.5), dict(step_nom=0.5, num_steps=4), dict(base_step=1, step_ratio=2, num_steps=3),
+               dict(base_step=0.25, step_ratio=4, num_steps=5, offset=1), dict(num_extrap=2)]
+    xs = [(3, 3.0), (-5, -5.0), (np.int32(7), 7.0), (np.array([1, 2, 7]), np.array([1.0, 2.0, 7.0])), (0, 0.0)]
+    for gname, cls in gens:
+        for kw in optsets:
+            fkw = {k: (float(v) if isinstance(v, int) and k not in ('num_steps', 'offset', 'num_extrap') else v) for k, v in kw.items()}
+            for xi, xf in xs:
+                try:
+                    a = [np.asarray(v, dtype=complex) for v in cls(**kw)(xi, 'central', 2, 4)]
+                    b = [np.asarray(v, dtype=complex) for v in cls(**fkw)(xf, 'central', 2, 4)]
+                except Exception as e:  # noqa
+                    bad.append('%s(%s) at x=%r raises %s: %s' % (gname, kw, xi, type(e).__name__, e))
+                    continue
+                if len(a) != len(b) or any(u.shape != w.shape or not np.allclose(u, w, rtol=1e-13, atol=0) for u, w in zip(a, b)):
+                    bad.append('%s(%s) at integer-typed x=%r yields %r..., at x=%r %r...' % (
+                        gname, kw, xi, [np.ravel(v)[0] for v in a[:3]], xf, [np.ravel(v)[0] for v in b[:3]]))
+    return bad
 
 
 def _pow(t, e):
@@ -408,6 +437,9 @@ def replay(cex):
         return False, 'documented sequence on the probes'
     if kind == 'scale':
         return True, 'default_scale(%s) = %r, documented table %r' % (cex['entry'], cex['got'], cex['want'])
+    if kind == 'intwitness':
+        bad = int_witness_failures(sg, lim)
+        return (True, bad[0]) if bad else (False, 'integer-typed arguments behave like floats')
     if kind == 'cstep':
         import cmath
         for dth in (0.5, -0.5, math.pi / 8, -math.pi / 8):
